@@ -672,6 +672,16 @@ type Probe struct {
 
 // BuildProbes builds (or fetches from the cache) one probe per configuration, in parallel.
 func BuildProbes(schema string, cfgs []Config, extra map[string]string) ([]Probe, error) {
+	return BuildProbesRace(schema, cfgs, extra, false)
+}
+
+// Races collects race-detector reports printed by probe processes.
+var (
+	racesMu sync.Mutex
+	Races   []string
+)
+
+func BuildProbesRace(schema string, cfgs []Config, extra map[string]string, race bool) ([]Probe, error) {
 	out := make([]Probe, len(cfgs))
 	errs := make([]error, len(cfgs))
 	var wg sync.WaitGroup
@@ -682,7 +692,7 @@ func BuildProbes(schema string, cfgs []Config, extra map[string]string) ([]Probe
 			defer wg.Done()
 			sem <- struct{}{}
 			defer func() { <-sem }()
-			b, err := probe.Build(probe.Spec{Name: c.Name, Schema: map[string]string{"schema.graphqls": schema}, Config: c.YAML, Extra: extra}, false)
+			b, err := probe.Build(probe.Spec{Name: c.Name, Schema: map[string]string{"schema.graphqls": schema}, Config: c.YAML, Extra: extra, Race: race}, false)
 			out[i] = Probe{Cfg: c, Built: b}
 			errs[i] = err
 		}(i, c)
@@ -701,6 +711,21 @@ func RunAll(bin string, cases []Case) ([]Result, error) {
 	results := make([]Result, len(cases))
 	var sess *probe.Session
 	var err error
+	closeSess := func() {
+		if sess == nil {
+			return
+		}
+		_ = sess.Close()
+		if out := sess.Stderr.String(); strings.Contains(out, "DATA RACE") {
+			racesMu.Lock()
+			if len(out) > 4000 {
+				out = out[:4000]
+			}
+			Races = append(Races, out)
+			racesMu.Unlock()
+		}
+		sess = nil
+	}
 	for i := range cases {
 		if sess == nil {
 			sess, err = probe.Start(bin)
@@ -714,17 +739,27 @@ func RunAll(bin string, cases []Case) ([]Result, error) {
 			return nil, derr
 		}
 		if crashed {
-			_ = sess.Close()
-			sess = nil
+			closeSess()
 			res = Result{ID: cases[i].ID, Crashed: true}
 		} else if res.Hang {
-			_ = sess.Close()
-			sess = nil
+			closeSess()
 		}
 		results[i] = res
 	}
-	if sess != nil {
-		_ = sess.Close()
-	}
+	closeSess()
 	return results, nil
+}
+
+// OrderCoq renders the real-time start/end events of resolver calls.
+func OrderCoq(order []string) string {
+	var items []string
+	for _, e := range order {
+		switch {
+		case strings.HasPrefix(e, "start "):
+			items = append(items, "(true, "+PathCoq(strings.TrimPrefix(e, "start "))+")")
+		case strings.HasPrefix(e, "end "):
+			items = append(items, "(false, "+PathCoq(strings.TrimPrefix(e, "end "))+")")
+		}
+	}
+	return gen.List(items)
 }
